@@ -431,6 +431,16 @@ theorem C18_maxwidth_fits (text : List Char) (n : Int) (h : 5 ≤ n)
   simp only [shorten, hn, if_false]
   rw [shortenLine_fits n.toNat (splitWords text) (splitWords_good text) (by rw [← totalLen_flatten]; omega)]
 
+/-- **the shape of every result**: empty, the bare placeholder `[...]`, or a prefix of the chunks of the normalised text (words
+    and single blanks; the last chunk possibly cut, when a word alone is wider than asked) - followed by ` [...]` when
+    something was left out.  Nothing is ever invented or reordered. -/
+theorem C18_maxwidth_shape (text : List Char) (n : Int) (h : 5 ≤ n) :
+    ∃ r, shorten text n = some r ∧
+      (r = [] ∨ r = "[...]".toList ∨
+        ∃ pre, CutPrefix pre (shortenChunks (splitWords text)) ∧ (r = pre.flatten ∨ r = pre.flatten ++ shortenPlaceholder)) := by
+  have hn : ¬ n < 5 := by omega
+  exact ⟨_, by simp [shorten, hn], shortenLine_shape n.toNat (shortenChunks (splitWords text))⟩
+
 /-- the words are non-empty and free of white space (what `str.split()` returns) -/
 theorem C18_split_words (text : List Char) : ∀ wd ∈ splitWords text, wd ≠ [] ∧ ∀ c ∈ wd, isWs c = false :=
   splitWords_good text
